@@ -95,6 +95,8 @@ type Ctx struct {
 	defs        map[string]string
 	paramTerms  []Value
 	smtCache    []string
+	mapofMemo   map[string]string // body text -> constant naming that map
+	mapofDefs   []string          // their defining axioms (emitted after the declarations)
 	usesBits    bool
 	epochs      int
 	rangeCells  map[*ssa.Range]*Cell
@@ -361,7 +363,7 @@ func (c *Ctx) wf(term string, t types.Type, depth int) []string {
 	case *types.Pointer, *types.Map, *types.Chan:
 		out = append(out, fmt.Sprintf("(>= %s 0)", term))
 	case *types.Slice:
-		out = append(out, fmt.Sprintf("(and (>= (s.off %s) 0) (>= (s.len %s) 0) (<= (s.len %s) (s.cap %s)) (>= (s.base %s) 0) (=> (= (s.base %s) 0) (= (s.cap %s) 0)))", term, term, term, term, term, term, term))
+		out = append(out, fmt.Sprintf("(and (>= (s.off %s) 0) (>= (s.len %s) 0) (<= (s.len %s) (s.cap %s)) (<= (s.cap %s) 9223372036854775807) (>= (s.base %s) 0) (=> (= (s.base %s) 0) (= (s.cap %s) 0)))", term, term, term, term, term, term, term, term))
 	case *types.Interface:
 		out = append(out, fmt.Sprintf("(and (>= (i.tag %s) 0) (>= (i.val %s) 0) (=> (= (i.tag %s) 0) (= (i.val %s) 0)))", term, term, term, term))
 	case *types.Struct:
